@@ -36,6 +36,10 @@ def template(kind='vars', extra='', lit=None):
             src = SRC_VARS % extra
         elif kind == 'plain':
             src = SRC_PLAIN % extra
+        elif kind == 'rev':            # reversing changes which elements are shown, not the window arithmetic
+            src = SRC_VARS.replace('overlap=ov>', 'overlap=ov reverse>') % extra
+        elif kind == 'revx':
+            src = SRC_VARS.replace('overlap=ov>', 'overlap=ov reverse_expr="1" sort_expr="\'\'">') % extra
         elif kind == 'rv0':            # a reverse_expr that evaluates false: nothing is to be reversed
             src = SRC_VARS.replace('overlap=ov>', 'overlap=ov reverse_expr="rv0">') % extra
         elif kind == 'plainrv0':
